@@ -165,7 +165,7 @@ func (g *gctx) stmts(f *javagen.File, depth int, v *vis, n int) []javagen.Stmt {
 		switch k := r.Intn(12); {
 		case k <= 2:
 			name := g.pick(varNames)
-			st := javagen.Stmt{K: "decl", Type: g.varType(f), Name: name}
+			st := javagen.Stmt{K: "decl", Type: g.varType(f), Name: name, Final: r.Intn(5) == 0}
 			already := false
 			for _, x := range v.names {
 				if x == name {
